@@ -7,7 +7,7 @@ import ast
 
 from .core import AnalysisError
 from .lifter import (Interp, InfoObj, ModVal, Term, TInt, TId, LiftError, LiftUnknown, FuncVal, Ctor, Sym, show)
-from .x86table import model as x86model
+from .x86table import model as x86model, RowView
 from .shapes import u
 
 
@@ -113,6 +113,7 @@ class LifterModel(object):
                 combos = [(om, ()) for om in self.opmodes]
             for opmode, prefix in combos:
                 for _once in (1,):
+                    self._cur_view = RowView(opc, row.afs)
                     for form, ops in self._forms(row, name, modifs, opmode, prefix, c.live):
                         name2, ops2 = self._special(name, modifs, opmode, ops)
                         kk = (name2, form, opmode, prefix, k[2], row.idx)
@@ -148,11 +149,11 @@ class LifterModel(object):
             if live_reg and X.dis_digit_reg_rejected(modifs, dibs, name, row.opc):
                 live_reg = []           # _dis returns None for a register r/m operand of this row
             live_mem = any(b < 0xC0 for b in live)
-            if modifs.get(mmx) and X.dis_mmx_modes(name, list(prefix), False, digit=True) == 'rejected':
+            if modifs.get(mmx) and X.dis_mmx_modes(name, list(prefix), False, digit=True, row=getattr(self, '_cur_view', None) or row) == 'rejected':
                 return                  # _dis returns None for this (row, mandatory prefix) pair
             if modifs.get(mmx):
                 if live_reg:
-                    r_ = X.dis_mmx_modes(name, list(prefix), False, digit=True)
+                    r_ = X.dis_mmx_modes(name, list(prefix), False, digit=True, row=getattr(self, '_cur_view', None) or row)
                     adm_ = r_[1] if isinstance(r_, tuple) else afs.u32
                     rn = {afs.mm: afs.reg_mm_base, afs.xmm: afs.reg_xmm_base}.get(adm_, 0) + live_reg[-1]
                     base.append(('rm=reg%d' % live_reg[-1], [self.REG(rn, S)]))
@@ -181,7 +182,7 @@ class LifterModel(object):
             margs = [dict(a) for a in margs]
             swap = modifs.get(sw)
             if modifs.get(mmx) and rmr in dibs and not isinstance(afsk, int):
-                r_ = X.dis_mmx_modes(name, list(prefix), swap)
+                r_ = X.dis_mmx_modes(name, list(prefix), swap, row=getattr(self, '_cur_view', None) or row)
                 if r_ == 'rejected':
                     continue        # _dis returns None for this combination
                 if isinstance(r_, tuple):
@@ -249,7 +250,7 @@ class LifterModel(object):
         swap_args = modifs.get(sw)
         if modifs.get(mmx):
             # derived from the source of x86_mn._dis (register-file selection of MMX/SSE rows)
-            r = X.dis_mmx_modes(row.name, list(prefix), swap_args)
+            r = X.dis_mmx_modes(row.name, list(prefix), swap_args, row=getattr(self, '_cur_view', None) or row)
             if r in ('rejected', 'never'):
                 return
             o, a, _swap = r
